@@ -19,8 +19,10 @@ LEVEL_TEXT = ("Proof component: for every libcola compound-constraint type the v
               "an accepted constraint) that the harness replays on the real library. Tie: the satisfied flags of every sub-constraint "
               "and the rectangles right after makeFeasible() (plus the whole trial log when hook_c07 is compiled in) equal the model's "
               "whenever every solver decision has margin > 2e-11.")
-LEVEL_NOTE = ("Stress descent is NOT modelled; makeFeasible's loop is modelled for user constraints (the lazily generated non-overlap "
-              "and cluster-containment items are not: with overlap avoidance only the flags of the user phase are compared, not positions); "
+LEVEL_NOTE = ("Stress descent is NOT modelled; makeFeasible's loop is modelled for user constraints and for the lazily generated "
+              "non-overlap item over plain shapes (pairs sorted by live overlap, containment penalty, four alternatives by cost, re-queueing; "
+              "cluster containment / cluster non-overlap are C08's and not modelled here); with overlap avoidance about a quarter of the scenes "
+              "have an exact tie between overlap keys computed from rounded positions and are compared on the user-phase flags only; "
               "C07's end-to-end claim holds only for the sampled runs. A violation right after makeFeasible() is excused as the known "
               "finding only if the MODEL drops that sub-constraint on the same scene (class makeFeasible-drop) or flags it in a combined "
               "solve (class makeFeasible-combined-unchecked); otherwise it is the strict kind makeFeasible-violates-accepted. Mapping of unsatisfiable reports to "
